@@ -858,12 +858,25 @@ def is_watertight(edges, edges_sorted=None):
 
     # group sorted edges
     groups = grouping.group_rows(edges_sorted, require_count=2)
-    watertight = bool((len(groups) * 2) == len(edges))
+    # a face which repeats a vertex pairs its own two identical edges:
+    # that edge belongs to one face and the face has an `(a, a)` edge
+    watertight = bool(
+        (len(groups) * 2) == len(edges) and (edges[:, 0] != edges[:, 1]).all()
+    )
 
     # are opposing edges reversed
     opposing = edges[groups].reshape((-1, 4))[:, 1:3].T
     # wrap the weird numpy bool
     winding = bool(np.equal(*opposing).all())
+
+    if winding and not watertight:
+        # some edges are not in a pair: the faces around an edge can only
+        # be wound compatibly if the two directions it is traversed in
+        # balance, an edge used three times the same way is not reversed
+        _, inverse = grouping.unique_rows(edges_sorted)
+        forward = np.bincount(inverse, weights=edges[:, 0] < edges[:, 1])
+        reverse = np.bincount(inverse, weights=edges[:, 0] > edges[:, 1])
+        winding = bool((np.abs(forward - reverse) <= 1).all())
 
     return watertight, winding
 
